@@ -40,6 +40,11 @@ def r_erase_before(F, V):
             if outer in BULK_CONSUMERS:
                 R.inst(key, "bulk consumer: %s" % BULK_CONSUMERS[outer], "ok", False, where(body, bb=i))
                 continue
+            if outer in ("raw::<RawIntoIter as Drop>::drop", "raw::<RawDrain as Drop>::drop") and what == "drop":
+                # RawIter::drop_elements written out in the destructor of an owning iterator: the remainder is destroyed
+                # there by design; that the storage is then released / reset exactly once is R-OWNING-ITER / R-DRAIN-PROTOCOL
+                R.inst(key, "destructor of an owning iterator destroying its remainder (R-OWNING-ITER, R-DRAIN-PROTOCOL)", "ok", False, where(body, bb=i))
+                continue
             # the slot must have been unregistered (control byte cleared, items decremented) on every path before
             ok = False
             for j, t2 in body.calls():
@@ -159,7 +164,29 @@ def r_owning_iter(F, V):
             R.violation(key, db, "Drop for %s does not destroy the remainder through its own cursor field `%s` (a clone or a different cursor would drop elements twice or not at all)" % (X, fld))
             R.inst(key, "remainder not destroyed through the same cursor", "violation", True, where(db))
             continue
-        bad_order = [r for r in release if not any(db.dominates(d, r) for d in destroy)]
+        # order: nothing is destroyed after the storage has been released / reset. (With drop_elements called as a helper
+        # the call dominates the release; written out as a guarded loop it does not - what matters is that no destroy
+        # site is reachable from a release site and that every release is reachable from the destroy sites' region.)
+        after_release = set()
+        for r_ in release:
+            for sx in db.nsucc[r_]:
+                after_release |= db.reachable_from(sx)
+        bad_order = [r for r in release if any(d in after_release for d in destroy)]
+        if not bad_order:
+            dominated = [r for r in release if any(db.dominates(d, r) for d in destroy)]
+            if len(dominated) != len(release):
+                # accept only the guarded-loop form: the destroy site sits in a loop whose header dominates the release,
+                # or in a conditional whose branch block dominates the release
+                for r in release:
+                    if r in dominated:
+                        continue
+                    ok_r = False
+                    for d in destroy:
+                        for (bb, sx) in db.control_deps_trans(d, "all"):
+                            if db.dominates(bb, r):
+                                ok_r = True
+                    if not ok_r:
+                        bad_order.append(r)
         if bad_order:
             R.violation(key, db, "Drop for %s releases the storage before (or without) destroying the remaining elements" % X, line=line_of(db, bb=bad_order[0]))
             R.inst(key, "release not dominated by destruction of the remainder", "violation", True, where(db, bb=bad_order[0]))
@@ -282,6 +309,7 @@ def r_drain_protocol(F, V):
         R.undec("raw::<RawDrain as Drop>::drop not found")
     else:
         de = [i for i, t in db.calls() if (callee_path(t) or "").endswith("::drop_elements")]
+        de_inline = [i for i, t in db.calls() if (callee_path(t) or "") == BUCKET_DROP]   # drop_elements written out as a loop
         cl = [i for i, t in db.calls() if (callee_path(t) or "").endswith("::clear_no_drop")]
         wb = []
         for i, t in db.calls():
@@ -313,7 +341,18 @@ def r_drain_protocol(F, V):
                 if c2.endswith("::clear_no_drop") and not hb.control_deps_trans(j, "ret"):
                     cl.append(i)
         key = "raw::<RawDrain as Drop>::drop|order"
-        if not de or not cl or not wb:
+        if not de and de_inline and cl and wb:
+            # inlined form: no element destructor may run once the table has been reset or written back
+            after_reset = set()
+            for c in cl + wb:
+                for sx in db.nsucc[c]:
+                    after_reset |= db.reachable_from(sx)
+            if any(d in after_reset for d in de_inline) or not all(any(db.dominates(c, w) for c in cl) for w in wb):
+                R.violation(key, db, "RawDrain::drop must run drop_elements before clear_no_drop before the write-back of the table (a destructor panic must leave the original as the empty table; the allocation is kept)")
+                R.inst(key, "wrong order", "violation", True, where(db))
+            else:
+                R.inst(key, "remainder destroyed (loop over self.iter) < clear_no_drop < write-back of self.table into the original", "ok", True, where(db))
+        elif not de or not cl or not wb:
             R.violation(key, db, "RawDrain::drop must destroy the remainder (drop_elements), reset the table (clear_no_drop) and write it back to the original; found drop_elements=%s clear_no_drop=%s write-back=%s" % (bool(de), bool(cl), bool(wb)))
             R.inst(key, "missing step", "violation", True, where(db))
         elif not (all(any(db.dominates(d, c) for d in de) for c in cl) and all(any(db.dominates(c, w) for c in cl) for w in wb)):
@@ -400,6 +439,11 @@ def r_linear_inner(F, V):
                             if r in moved_tmp:
                                 if cp in INNER_SINKS or cp.endswith("::guard"):
                                     cons.add(i)
+                                # the release written out by hand (free_buckets inlined): allocation_info(&local) feeding a deallocate
+                                if cp.endswith("RawTableInner::allocation_info"):
+                                    for j2, t3 in body.calls():
+                                        if _is_alloc_trait_call(t3, "deallocate") and any(og[0] == "call" and og[1] == i for a3 in t3["args"] for og in body.origins(a3)):
+                                            cons.add(j2)
                                 if cp.endswith("is_empty_singleton"):
                                     # the true arm needs no release
                                     for j in body.normal:
@@ -428,6 +472,20 @@ def r_linear_inner(F, V):
 def _is_alloc_trait_call(t, method):
     f = t["f"]
     return f["k"] == "fn" and f.get("method") == method and (f.get("trait") or "").endswith("Allocator")
+
+
+def _dealloc_of_own_block(body, t):
+    """both the pointer and the layout handed to deallocate originate from one allocation_info(..) call (or into_allocation())"""
+    if len(t["args"]) < 3:
+        return False
+    srcs = []
+    for a in t["args"][1:3]:
+        found = set()
+        for og in body.origins(a):
+            if og[0] == "call" and ((callee_path(og[2]) or "").endswith("::allocation_info") or (callee_path(og[2]) or "").endswith("::into_allocation")):
+                found.add(og[1])
+        srcs.append(found)
+    return bool(srcs[0] & srcs[1])
 
 
 def r_alloc_who(F, V):
@@ -459,6 +517,10 @@ def r_alloc_who(F, V):
             key = "%s|%s" % (p, kind)
             if p in allowed[kind]:
                 R.inst(key, "%s called from its designated owner" % kind, "ok", False, where(body, bb=i))
+            elif kind == "deallocate" and _dealloc_of_own_block(body, t):
+                # the release written out in place (free_buckets inlined at its call site): what matters is that the block
+                # returned is the table's own - pointer and layout both come from one allocation_info()/into_allocation()
+                R.inst(key, "deallocate(ptr, layout) with both taken from allocation_info() of the table being released", "ok", True, where(body, bb=i))
             else:
                 R.violation(key, body, "%s is called from %s; only %s may: allocation and release of the table block must stay paired in one place" % (kind, p, ", ".join(allowed[kind])), line=line_of(body, bb=i))
                 R.inst(key, "unexpected caller of %s" % kind, "violation", True, where(body, bb=i))
